@@ -68,7 +68,7 @@ def find(pid, oid, cfg, repo):
     return None
 
 
-def sweep(pid, cfg, repo):
+def sweep(pid, cfg, repo, generated=False):
     """thorough tier: run every stored candidate input of the property against the real crate"""
     ws = cfg.get("witness", [])
     if not ws:
@@ -80,6 +80,22 @@ def sweep(pid, cfg, repo):
     for w in ws:
         for cand in w["candidates"]:
             out.append(run_one(w["kind"], cand))
+    if generated:
+        # thorough tier: bounded exploration with deterministic generated inputs (engine/gen_inputs.py)
+        import gen_inputs
+        from concurrent.futures import ThreadPoolExecutor
+        for kind in dict.fromkeys(w["kind"] for w in ws):
+            inputs = gen_inputs.generate(kind)
+            if not inputs:
+                continue
+            with ThreadPoolExecutor(8) as ex:
+                res = list(ex.map(lambda x: run_one(kind, x, 60), inputs))
+            for r in res:
+                r["generated"] = True
+                if "input does not parse" in r["stdout"] and r["exit_status"] == 0:
+                    r["violated"] = False          # (a generated text outside the grammar says nothing)
+                    r["unparsable"] = True
+            out += res
     return out
 
 
